@@ -9,3 +9,21 @@ pub(crate) mod sra_codegen;
 pub(crate) mod srl_codegen;
 pub(crate) mod sub_codegen;
 pub(crate) mod xor_codegen;
+
+/// Verification hook (only with `--cfg poulpy_verif`): read-only access to the compiled u32 circuit tables.
+#[cfg(poulpy_verif)]
+pub fn verif_u32_circuits() -> Vec<(&'static str, &'static dyn crate::bdd_arithmetic::GetBitCircuitInfo)> {
+    vec![
+        ("add", &add_codegen::OUTPUT_CIRCUITS),
+        ("sub", &sub_codegen::OUTPUT_CIRCUITS),
+        ("sll", &sll_codegen::OUTPUT_CIRCUITS),
+        ("srl", &srl_codegen::OUTPUT_CIRCUITS),
+        ("sra", &sra_codegen::OUTPUT_CIRCUITS),
+        ("slt", &slt_codegen::OUTPUT_CIRCUITS),
+        ("sltu", &sltu_codegen::OUTPUT_CIRCUITS),
+        ("and", &and_codegen::OUTPUT_CIRCUITS),
+        ("or", &or_codegen::OUTPUT_CIRCUITS),
+        ("xor", &xor_codegen::OUTPUT_CIRCUITS),
+        ("identity", &identity_codgen::OUTPUT_CIRCUITS),
+    ]
+}
